@@ -3,7 +3,7 @@
 import json, glob, os
 V = os.path.dirname(os.path.dirname(os.path.abspath(__file__)))
 rows = []
-for kind in ('seeded', 'seeded2', 'redteam'):
+for kind in ('seeded', 'seeded2', 'seeded3', 'redteam'):
     for d in sorted(glob.glob('%s/%s/*' % (V, kind))):
         m = json.load(open(d + '/meta.json'))
         files = sorted({l[6:].strip().replace('src/', '') for l in open(d + '/patch.diff') if l.startswith('+++ b/')})
